@@ -57,6 +57,8 @@ def trace_record(r, pv):
         "pclass": pv["class"],
         "expl": ("yes" if c["expl"] else "no") if c else "none",
         "expp": ("yes" if c["expp"] else "no") if c else "none",
+        "routes": [{"name": rt["name"], "v": "accept" if rt["accept"] else "reject", "judged": rt["class"] in ("ok", "key", "empty")}
+                   for rt in r.get("routes") or []],
     }
 
 
@@ -107,47 +109,66 @@ def illegal_keys(g, f, nodes):
     return out
 
 
-def classify(r, pv, facts, kl, kp):
-    """signatures C20/<file>/<clause>/<key path or node kind> for one failing record.
+RULE_LISTS = {"compiler": ["passes"], "veneers": ["builders", "options"]}
 
-    Strict       the loader accepted a key its own grammar does not declare (witness: kind of the node that let it through;
-                 collapsed to any-node by the caller when the root lets it through too) / rejected a declared one
-    EmptyRule    the loader accepted a rule entry without action (witness: the rule list)
-    SameLanguage loader and published schema disagree about a key one of them declares (witness: the key path)
-    """
+
+def empty_rule_entries(r):
+    """[(rule list, "" | ":null")] for the entries of rule lists that have no key at all"""
+    out = []
+    doc = r["doc"] if isinstance(r["doc"], dict) else {}
+    for lst in RULE_LISTS.get(r["file"], []):
+        for e in doc.get(lst) or []:
+            if e is None:
+                out.append((lst + "[]", ":null"))
+            elif e == {}:
+                out.append((lst + "[]", ""))
+    return out
+
+
+def loader_sigs(r, v, facts, kl, suffix=""):
+    """Strict / EmptyRule signatures for one loader verdict v (the primary loader or one of the routes) that is not the one
+    Strict demands"""
+    f = r["file"]
+    acc, okl, rules = v["accept"], facts["keysok_loader"], facts["rulesok"]
+    who = "the loader" if not suffix else "the route %s" % suffix[1:]
+    sigs = []
+    if acc and not okl:
+        for at, k, nid in illegal_keys(kl, f, r["nodes"]):
+            sigs.append(("C20/%s/Strict/%s%s" % (f, strict_witness(kl, f, at, nid), suffix),
+                         "%s accepted a document with a key that is not part of the configuration language" % who))
+    elif acc and not rules:
+        for lst, form in empty_rule_entries(r) or [("?", "")]:
+            sigs.append(("C20/%s/EmptyRule/%s%s%s" % (f, lst, form, suffix),
+                         "%s accepted a rule entry without any recognised action%s" % (who, " (a null entry is silently dropped)" if form else "")))
+    elif not acc and okl and rules:
+        if v["class"] == "empty":
+            sigs.append(("C20/%s/EmptyRule/spurious%s" % (f, suffix), "%s reported an empty rule for an entry that has a recognised action" % who))
+        else:
+            sigs.append(("C20/%s/Strict/rejects-declared:%s.%s%s" % (f, v["type"] or "?", v["key"] or "?", suffix),
+                         "%s rejected a key the loader's own structs declare" % who))
+    return sigs
+
+
+def same_sigs(r, pv, facts, kl, kp):
+    """SameLanguage signatures: the loader behaved as its own grammar says, the published schema differs.
+    witness = <node kind>.<key>: one signature per drifted key however many key paths reach its (recursive) type"""
     f = r["file"]
     lacc, pacc = r["loader"]["accept"], pv["accept"]
-    okl, okp, rules = facts["keysok_loader"], facts["keysok_published"], facts["rulesok"]
+    okp = facts["keysok_published"]
     sigs = []
-    if lacc and not okl:
-        for at, k, nid in illegal_keys(kl, f, r["nodes"]):
-            sigs.append(("C20/%s/Strict/%s" % (f, strict_witness(kl, f, at, nid)), "the loader accepted a document with a key that is not part of the configuration language"))
-        if pacc and not okp:
-            for at, k, nid in illegal_keys(kp, f, r["nodes"]):
-                sigs.append(("C20/%s/SameLanguage/published-open:%s" % (f, nid), "the published schema accepts an undeclared key"))
-        return sigs
-    if lacc and okl and not rules:
-        for n in r["nodes"]:
-            if _is_rule(f, n["at"]) and not [k for k in n["keys"]]:
-                sigs.append(("C20/%s/EmptyRule/%s" % (f, cl.path_str(n["at"])), "the loader accepted a rule entry without any recognised action"))
-        return sigs or [("C20/%s/EmptyRule/?" % f, "the loader accepted a rule entry without any recognised action")]
-    if not lacc and okl and rules:
-        if r["loader"]["class"] == "empty":
-            sigs.append(("C20/%s/EmptyRule/spurious" % f, "the loader reported an empty rule for an entry that has a recognised action"))
-        elif okp and pacc:
-            sigs.append(("C20/%s/SameLanguage/%s" % (f, _lkey_kind(r)), "the published schema accepts %s, the loader rejects it" % _lkey_path(r)))
-        else:
-            sigs.append(("C20/%s/Strict/rejects-declared:%s" % (f, _lkey_kind(r)), "the loader rejected %s, a key its own structs declare" % _lkey_path(r)))
-        return sigs
-    # the loader behaved as its own grammar says; the published schema differs
-    # witness = <node kind>.<key>: one signature per drifted key however many key paths reach its (recursive) type
     if pacc and not okp:
         for at, k, nid in illegal_keys(kp, f, r["nodes"]):
             sigs.append(("C20/%s/SameLanguage/published-open:%s" % (f, walk(kp, f, at)), "the published schema accepts an undeclared key at %s" % cl.path_str(at)))
     elif lacc and not pacc:
-        for k in pv["keys"] or [{"at": [], "key": "?"}]:
+        for k in pv["keys"]:
             sigs.append(("C20/%s/SameLanguage/%s.%s" % (f, walk(kl, f, k["at"]), k["key"]),
                          "the loader accepts %s, the published schema rejects it" % cl.path_str(k["at"], k["key"])))
+        if pv["class"] == "structure":
+            # no key is unknown to the schema: it rejects the COMBINATION of keys the loader accepts (minProperties, maxProperties,
+            # required, oneOf, ...): witness = keyword and the definition it sits in
+            for kw in pv.get("keywords") or ["?"]:
+                sigs.append(("C20/%s/SameLanguage/published-rejects:%s" % (f, kw),
+                             "the loader accepts a document the published schema rejects because of %s" % kw))
     elif pacc and not lacc and r["loader"]["class"] == "key":
         for at, k, nid in illegal_keys(kl, f, r["nodes"]):
             pid = walk(kp, f, at)
@@ -159,6 +180,40 @@ def classify(r, pv, facts, kl, kp):
         if not sigs:
             sigs.append(("C20/%s/SameLanguage/%s" % (f, _lkey_kind(r)), "the published schema accepts %s, the loader rejects it" % _lkey_path(r)))
     return sigs or [("C20/%s/SameLanguage/verdicts-differ" % f, "loader and published schema disagree")]
+
+
+def classify(r, pv, facts, kl, kp):
+    """signatures C20/<file>/<clause>/<witness>[@route] for one failing record.
+
+    Strict       a loader accepted a key its own grammar does not declare (witness: kind of the node that let it through;
+                 collapsed to any-node by the caller when the root lets it through too) / rejected a declared one
+    EmptyRule    a loader accepted a rule entry without action (witness: the rule list, `:null` for a null entry)
+    SameLanguage loader and published schema disagree about a key one of them declares (witness: the key), or about a
+                 combination of declared keys (witness: the schema keyword and definition)
+    @route       the verdict is the one of a file-name based entry point (PassesFrom, a pipeline naming the file)
+    """
+    f = r["file"]
+    violated = set(facts["violated"])
+    lacc, pacc = r["loader"]["accept"], pv["accept"]
+    okl, okp, rules = facts["keysok_loader"], facts["keysok_published"], facts["rulesok"]
+    sigs = []
+    if "LoaderStrict" in violated:
+        if not lacc and okl and rules and r["loader"]["class"] == "key" and okp and pacc:
+            sigs.append(("C20/%s/SameLanguage/%s" % (f, _lkey_kind(r)), "the published schema accepts %s, the loader rejects it" % _lkey_path(r)))
+        else:
+            sigs += loader_sigs(r, r["loader"], facts, kl)
+        if lacc and not okl and pacc and not okp:
+            for at, k, nid in illegal_keys(kp, f, r["nodes"]):
+                sigs.append(("C20/%s/SameLanguage/published-open:%s" % (f, nid), "the published schema accepts an undeclared key"))
+    elif violated & {"SameVerdict", "PublishedKeys"}:
+        sigs += same_sigs(r, pv, facts, kl, kp)
+    if "RouteStrict" in violated:
+        for rt in r["routes"]:
+            if rt["class"] in ("ok", "key", "empty") and rt["accept"] != (okl and rules):
+                if "LoaderStrict" in violated and rt["accept"] == lacc:
+                    continue   # the route only inherits the primary loader's defect, reported above
+                sigs += loader_sigs(r, rt, facts, kl, "@" + rt["name"])
+    return sigs
 
 
 def _is_rule(f, at):
@@ -193,6 +248,9 @@ class Run:
         self.sampled = set()
         self.seen = set()        # hashes of (file, YAML text): distinct documents over all plans
         self.nontrivial = 0
+        self.routes = {}         # file -> route -> {accept, reject, not_judged}
+        self.route_unjudged = []
+        self.partial_drift = 0
         self.pending = []
         self.clean_reject = None   # a record the trace specification accepted: material for the binding self-test
         self.tlc = []
@@ -217,6 +275,10 @@ class Run:
                 if n["custom"]:
                     ctx.notes.append("loader node %s has a custom UnmarshalYAML: its keys are taken from the struct fields and "
                                      "checked against the decoder's observed behaviour" % nid)
+        for f in FILES:
+            if self.kp[f]["unmodelled"]:
+                ctx.notes.append("schemas/%s uses keywords the key grammar cannot express (%s): KPublished is an approximation there, "
+                                 "documents are judged loader-vs-validator only" % (cl.FILES[f], "; ".join(self.kp[f]["unmodelled"][:4])))
         self.gdir = ctx.sub("grammars")
         self.kp_path = os.path.join(self.gdir, "kpublished.json")
         self.kl_path = os.path.join(self.gdir, "kloader.json")
@@ -269,7 +331,12 @@ class Run:
             self.account(r, pv)
             facts = fails.get(i)
             lj = r["loader"]["class"] in ("ok", "key", "empty")
-            pj = pv["class"] in ("ok", "key")
+            pj = pv["class"] in ("ok", "key", "structure")
+            for rt in r.get("routes") or []:
+                d = self.routes.setdefault(r["file"], {}).setdefault(rt["name"], {"accept": 0, "reject": 0, "not_judged": 0})
+                d["not_judged" if rt["class"] not in ("ok", "key", "empty") else "accept" if rt["accept"] else "reject"] += 1
+                if rt["class"] not in ("ok", "key", "empty") and len(self.route_unjudged) < 5:
+                    self.route_unjudged.append({"route": rt["name"], "err": rt["err"][:300], "yaml": r["yaml"][:300]})
             if not lj or not pj:
                 self.unjudged.append({"id": r["id"], "file": r["file"], "loader": r["loader"], "published": pv,
                                       "yaml": r["yaml"], "expected_to_load": bool(r.get("case") and r["case"]["expl"])})
@@ -281,11 +348,18 @@ class Run:
                     if self.clean_reject is None and r["loader"]["class"] == "key" and not pv["accept"]:
                         self.clean_reject = trace_record(r, pv)
                 continue
+            if self.kp[r["file"]].get("unmodelled") and "PublishedKeys" in facts["violated"]:
+                # KPublished is only an approximation of this schema (keywords the grammar cannot express): its own verdict is
+                # not trusted (soundness rule 4); the observed loader-vs-validator comparison (SameVerdict) still is
+                facts["violated"] = [v for v in facts["violated"] if v != "PublishedKeys"]
+                self.partial_drift += 1
+                if not facts["violated"]:
+                    continue
             if "GeneratorAgrees" in facts["violated"]:
                 self.inconclusive.append("generator and full-tree verdicts differ for case %s: %s" % (json.dumps(r.get("case"))[:300], r["yaml"][:300]))
             sigs = classify(r, pv, facts, self.kl, self.kp)
             replay = {"file": r["file"], "yaml": r["yaml"], "doc": r["doc"], "case": r.get("case"), "origin": r.get("origin"),
-                      "loader": r["loader"], "published": pv, "violated": sorted(facts["violated"])}
+                      "loader": r["loader"], "routes": r.get("routes") or [], "published": pv, "violated": sorted(facts["violated"])}
             for sig, what in dict(sigs).items():
                 self.pending.append((sig, "%s: loader=%s (%s) published=%s (%s) on\n%s" % (
                     what, "accept" if r["loader"]["accept"] else "reject", r["loader"]["err"][:160],
@@ -294,11 +368,16 @@ class Run:
     def report(self):
         """Strict failures of a whole decoder (the root node lets unknown keys through as well) are one defect, not one per
         node kind: collapse them to <file>/Strict/any-node."""
-        lax_roots = {f for f in FILES if any(sig == "C20/%s/Strict/%s" % (f, self.kl[f]["root"]) for sig, _, _ in self.pending)}
-        for sig, what, replay in self.pending:
+        def split(sig):
             parts = sig.split("/", 3)
-            if parts[2] == "Strict" and parts[1] in lax_roots and not parts[3].startswith("rejects-declared"):
-                sig = "C20/%s/Strict/any-node" % parts[1]
+            witness, _, route = parts[3].partition("@")
+            return parts[1], parts[2], witness, ("@" + route if route else "")
+        lax = {(f, route) for f, clause, witness, route in map(split, (p[0] for p in self.pending))
+               if clause == "Strict" and witness == self.kl[f]["root"]}
+        for sig, what, replay in self.pending:
+            f, clause, witness, route = split(sig)
+            if clause == "Strict" and (f, route) in lax and not witness.startswith("rejects-declared"):
+                sig = "C20/%s/Strict/any-node%s" % (f, route)
             self.ctx.fail(sig, what, replay)
         self.pending = []
 
@@ -315,9 +394,9 @@ class Run:
             self.count(f, "real-injected" if r["inj"] else "real-valid")
             return
         if c["emptyrule"] and not c["inj"]:
-            self.count(f, "empty-rule")
+            self.count(f, "empty-rule" if c["form"] == "map" else "empty-rule-null")
             if c["npos"] > 1:
-                self.count(f, "empty-rule-at-%d-of-%d" % (c["pos"], c["npos"]))
+                self.count(f, "empty-rule%s-at-%d-of-%d" % ("" if c["form"] == "map" else "-null", c["pos"], c["npos"]))
             self.count_kind(f, c["steps"][-1]["ldr"], "valid")
         elif c["inj"]:
             free = all((self.kl[f]["nodes"].get(i["ldr"]) or {"kind": "free"})["kind"] == "free" for i in r["inj"])
@@ -470,6 +549,10 @@ def run(ctx):
         "per_file": run_.counters,
         "per_node_kind": run_.kinds,
         "not_judged_value_level_rejections": len(run_.unjudged),
+        "routes": run_.routes,
+        "route_verdicts_not_judged_examples": run_.route_unjudged,
+        "published_schema_keywords": {f: {"combination": run_.kp[f]["combination"], "unmodelled": run_.kp[f]["unmodelled"]} for f in FILES},
+        "published_grammar_partial_disagreements_ignored": run_.partial_drift,
         "binding_selftest": binding,
         "samples": run_.samples[:3] or [{"note": "no sample drawn"}],
         "checker_cmd": "worker c20-grammar; extract schemas/*.json; tlc ConfigLangMC (%s); worker c20-run; python3-vt c20_validate.py; "
@@ -499,7 +582,8 @@ def reproduce(ctx, run_):
     pub = validate_published(ctx, run_.repo, rec, os.path.join(d, "pub.ndjson"))
     for s, line in zip(sigs, open(rec)):
         r = json.loads(line)
-        if r["loader"]["accept"] != first[s]["loader"]["accept"] or pub[r["id"]]["accept"] != first[s]["published"]["accept"]:
+        if (r["loader"]["accept"] != first[s]["loader"]["accept"] or pub[r["id"]]["accept"] != first[s]["published"]["accept"]
+                or [x["accept"] for x in r.get("routes") or []] != [x["accept"] for x in first[s].get("routes") or []]):
             raise core.Inconclusive("witness of %s did not reproduce" % s)
 
 
@@ -517,8 +601,15 @@ def vacuity(run_, quick):
             # one per rule list of the file (compiler: passes; veneers: builders, options) at each position
             nlists = {"compiler": 1, "veneers": 2}[f]
             for p in (0, 1, 2):
-                if c.get("empty-rule-at-%d-of-3" % p, 0) < nlists:
-                    out.append("%s/empty rule at position %d of 3 not exercised in every rule list" % (f, p))
+                for form in ("", "-null"):
+                    if c.get("empty-rule%s-at-%d-of-3" % (form, p), 0) < nlists:
+                        out.append("%s/empty rule (%s) at position %d of 3 not exercised in every rule list" % (f, form or "{}", p))
+            want = {"compiler": ["PassesFrom", "pipeline:transformations.schemas", "pipeline:inputs[].transformations"],
+                    "veneers": ["pipeline:transformations.builders"]}[f]
+            for name in want:
+                d = run_.routes.get(f, {}).get(name, {"accept": 0, "reject": 0})
+                if d["accept"] == 0 or d["reject"] == 0:
+                    out.append("%s route %s: judged accepts=%d rejects=%d" % (f, name, d["accept"], d["reject"]))
         if c.get("inject-free-form", 0) == 0:
             out.append("%s/inject-free-form never exercised" % f)
         if not quick:
